@@ -26,7 +26,7 @@ fn resource_heavy(toks: &[String]) -> bool {
 fn simple_expected(tt: &TT, toks: &[String]) -> Option<String> {
     let n = tt.n as i64;
     let cmd = toks[0].as_str();
-    if !matches!(cmd, "count" | "sat") { return None; }
+    if !matches!(cmd, "count" | "sat" | "core") { return None; }
     let mut a: Vec<i32> = Vec::new(); let mut v: Vec<i32> = Vec::new();
     let mut i = 1; let mut seen = std::collections::HashSet::new();
     while i < toks.len() {
@@ -46,6 +46,18 @@ fn simple_expected(tt: &TT, toks: &[String]) -> Option<String> {
         }
         if got.is_empty() { return None; }
         if target == 0 { a = got } else { v = got }
+    }
+    if cmd == "core" {
+        // per variable: the literal is reported iff every model containing the assumptions contains it
+        // (vacuously all of them when no model contains the assumptions)
+        if v.is_empty() {
+            if tt.count_with(&a) == 0 { return None; }
+            let mut lits: Vec<i32> = Vec::new();
+            for x in 1..=tt.n as i32 { for l in [x, -x] { let mut al = a.clone(); al.push(l); if tt.count_with(&al) == tt.count_with(&a) { lits.push(l); } } }
+            lits.sort();
+            return Some(lits.iter().map(|l| l.to_string()).collect::<Vec<_>>().join(" "));
+        }
+        return Some(v.iter().filter(|x| { let mut al = a.clone(); al.push(**x); tt.count_with(&al) == tt.count_with(&a) }).map(|x| x.to_string()).collect::<Vec<_>>().join(";"));
     }
     let one = |l: &[i32]| -> String { if cmd == "count" { tt.count_with(l).to_string() } else { (tt.count_with(l) > 0).to_string() } };
     if v.is_empty() { Some(one(&a)) } else { Some(v.iter().map(|x| { let mut l = a.clone(); l.push(*x); one(&l) }).collect::<Vec<_>>().join(";")) }
@@ -104,11 +116,13 @@ pub fn c13(a: &Args) {
     let mut rng = Rng::new(a.seed);
     let mut out = Out::new(&a.out);
     let save_dir = a.out.clone();
-    let models: Vec<(GenFile, TT)> = (0..(if a.thorough() { 3 } else { 1 })).map(|_| loop {
+    let models: Vec<(GenFile, TT)> = (0..(if a.thorough() { 3 } else { 1 })).map(|i| loop {
         let n = 4 + rng.below(3) as u32;
         let (f, _) = random_d4(&mut rng, n, 4);
         let tt = f.tt();
-        if tt.count() >= 3 && tt.count() < (1 << n) { break (f, tt); }
+        // the first model has a core or dead feature (and a free one), so that assumptions can be unsatisfiable by a single literal
+        let has_core = (1..=n as i32).any(|v| tt.count_with(&[v]) == 0 || tt.count_with(&[-v]) == 0);
+        if tt.count() >= 3 && tt.count() < (1 << n) && (i != 0 || has_core) { break (f, tt); }
     }).collect();
     for (file, tt) in &models {
         let d = load(file).unwrap();
@@ -171,6 +185,18 @@ pub fn c13(a: &Args) {
             let len = 1 + rng.below(30);
             let line: String = (0..len).map(|_| { let c = 32 + rng.below(95) as u8; if c == b'|' { 'x' } else { c as char } }).collect();
             run_line(&mut out, &mut s, &line, &save_dir);
+        }
+        // count / sat / core with assumptions and variables over all pairs of literals, incl. unsatisfiable assumptions
+        {
+            let lits: Vec<i32> = (1..=file.n as i32).flat_map(|x| [x, -x]).collect();
+            for &x in &lits { for &y in &lits {
+                for cmd in ["core", "count", "sat"] {
+                    if cmd != "core" && (x + y) % 3 != 0 { continue; }
+                    run_line(&mut out, &mut s, &format!("{cmd} a {x} v {y}"), &save_dir);
+                    if (x * 7 + y) % 5 == 0 { run_line(&mut out, &mut s, &format!("{cmd} v {y} {x} a {x} {}", -x), &save_dir); }
+                }
+            } }
+            for &x in &lits { run_line(&mut out, &mut s, &format!("core a {x}"), &save_dir); }
         }
         run_line(&mut out, &mut s, "", &save_dir);
         run_line(&mut out, &mut s, "   ", &save_dir);
